@@ -13,6 +13,8 @@
 #include "nmtools/array/functional/ufuncs/add.hpp"
 #include "nmtools/array/functional/ufuncs/subtract.hpp"
 #include "nmtools/array/functional/flatten.hpp"
+#include "nmtools/array/functional/ufuncs/negative.hpp"
+#include "nmtools/array/functional/ufuncs/square.hpp"
 #include "nmtools/array/view/transpose.hpp"
 #include "nmtools/array/view/flip.hpp"
 #include "nmtools/array/view/reshape.hpp"
@@ -22,6 +24,8 @@
 #include "nmtools/array/view/ufuncs/add.hpp"
 #include "nmtools/array/view/ufuncs/subtract.hpp"
 #include "nmtools/array/view/flatten.hpp"
+#include "nmtools/array/view/ufuncs/negative.hpp"
+#include "nmtools/array/view/ufuncs/square.hpp"
 #include <tuple>
 
 #ifndef MAXD
@@ -196,9 +200,27 @@ static vj::value tree(const vj::value& c) {
     return tree_rhs(c, view::flatten(a), b);
 }
 
+// "chain3" cases: f3(f2(f1(a))) over {negative, square, add b, subtract b}: depth-3 view types without the depth-3 program binaries
+template <int Level, class V> static vj::value chain3(const std::vector<std::string>& ops, const std::string& variant, const V& v, const dyn_t<long>& b) {
+    if constexpr (meta::is_maybe_v<V>) { if (!static_cast<bool>(v)) { auto n = nothing_res(); n.set("maybe", true); return n; } return chain3<Level>(ops, variant, *v, b); }
+    else if constexpr (Level == 3) return tree_finish(variant, v);
+    else {
+        const std::string& o = ops[Level];
+        if (o == "negative") return chain3<Level + 1>(ops, variant, view::negative(v), b);
+        if (o == "square") return chain3<Level + 1>(ops, variant, view::square(v), b);
+        if (o == "add_b") return chain3<Level + 1>(ops, variant, view::add(v, b), b);
+        return chain3<Level + 1>(ops, variant, view::subtract(v, b), b);
+    }
+}
+
 static vj::value handle(const vj::value& c) {
 #if !defined(FIRST_IDX) || FIRST_IDX == 0
     if (c["op"].as_str() == "tree") return tree(c);
+    if (c["op"].as_str() == "chain3") {
+        auto a = make_data<long>(c["shapes"][0].as_vec<long>(), c["data"][0].as_vec<long>()); auto b = make_data<long>(c["shapes"][1].as_vec<long>(), c["data"][1].as_vec<long>());
+        std::vector<std::string> ops; for (size_t i = 0; i < 3; i++) ops.push_back(c["args"]["ops"][i].as_str());
+        return chain3<0>(ops, c["variant"].as_str(), a, b);
+    }
 #endif
     std::vector<step_t> st;
     for (size_t i = 0; i < c["prog"].size(); i++) st.push_back(parse_step(c["prog"][i]));
